@@ -134,6 +134,10 @@ func (c *ColMap[K, V]) DecodeColumn(r *Reader, rows int) error {
 		return errors.Wrap(err, "offsets")
 	}
 
+	if err := checkOffsets(c.Offsets); err != nil {
+		return errors.Wrap(err, "offsets")
+	}
+
 	count := int(c.Offsets[rows-1])
 	if err := checkRows(count); err != nil {
 		return errors.Wrap(err, "keys count")
